@@ -53,13 +53,58 @@ theorem rPartial_ok {s : DSymData} (h : SymInv s) {i d : Nat} (hi : i < s.dim) (
       simp only [Bool.or_eq_false_iff, decide_eq_false_iff_not]
       omega
     rw [hoor]
-    simp only [Bool.false_eq_true, if_false]
-    rw [if_neg (by omega), if_pos rfl, hk]
-    simp only [ok_bind, DSymData.orbAt]
-    rw [getElem?_eq_some_getD _ k 0 hklt]
-    rfl
+    have hne : ¬ (i + 1 = i) := by omega
+    simp only [Bool.false_eq_true, if_false, hne, if_true, hk, ok_bind, DSymData.orbAt,
+      getElem?_eq_some_getD _ k 0 hklt, pure_eq_ok]
   · rw [h.rs_eq] at hklt ⊢
     exact f.rs_pos k hklt
+
+theorem vPartial_ok {s : DSymData} (h : SymInv s) {i d : Nat} (hi : i < s.dim) (h1 : 1 ≤ d) (h2 : d ≤ s.size) :
+    ∃ v, s.vPartial i (i + 1) d = .ok (some v) := by
+  obtain ⟨k, hk, hklt⟩ := oix_ok h hi h1 h2
+  refine ⟨s.orbitVs.getD k 0, ?_⟩
+  unfold DSymData.vPartial
+  have hoor : s.outOfRange i (i + 1) d = false := by
+    unfold DSymData.outOfRange
+    simp only [Bool.or_eq_false_iff, decide_eq_false_iff_not]
+    omega
+  rw [hoor]
+  have hne : ¬ (i + 1 = i) := by omega
+  simp only [Bool.false_eq_true, if_false, hne, if_true, hk, ok_bind, DSymData.orbAt,
+    getElem?_eq_some_getD _ k 0 (h.vs_size ▸ hklt), pure_eq_ok]
+
+/-- every operation of `s` is an involution on 1..size (in particular everywhere defined) -/
+def OpsAreInvolutions (s : DSymData) : Prop :=
+  ∀ i d, i ≤ s.dim → 1 ≤ d → d ≤ s.size →
+    ∃ e, s.op i d = some e ∧ 1 ≤ e ∧ e ≤ s.size ∧ s.op i e = some d
+
+/-- for every chamber and adjacent index pair the queries `r`, `v`, `m` answer without panic,
+    the orbit-length entry is positive and the degree is that entry times the branching
+    number — a multiple of it -/
+def DegreesAreMultiples (s : DSymData) : Prop :=
+  ∀ i d, i < s.dim → 1 ≤ d → d ≤ s.size →
+    ∃ r v, s.rPartial i (i + 1) d = .ok (some r) ∧ 1 ≤ r ∧
+      s.vPartial i (i + 1) d = .ok (some v) ∧ s.mPartial i (i + 1) d = .ok (some (r * v))
+
+theorem opSimple_in_range (ds : DSetData) {i d : Nat} (hi : i ≤ ds.dim) (h1 : 1 ≤ d) (h2 : d ≤ ds.size) :
+    ds.opSimple i d = some (ds.opU i d) := by
+  unfold DSetData.opSimple
+  rw [if_neg]
+  simp only [Bool.or_eq_true, decide_eq_true_eq, not_or, Nat.not_lt]
+  omega
+
+theorem SymInv.involutions {s : DSymData} (h : SymInv s) : OpsAreInvolutions s := by
+  intro i d hi h1 h2
+  have hr := h.set.range i d hi h1 h2
+  refine ⟨s.dset.opU i d, opSimple_in_range s.dset hi h1 h2, hr.1, hr.2, ?_⟩
+  show s.dset.opSimple i _ = _
+  rw [opSimple_in_range s.dset hi hr.1 hr.2, h.set.invol i d hi h1 h2]
+
+theorem SymInv.degrees {s : DSymData} (h : SymInv s) : DegreesAreMultiples s := by
+  intro i d hi h1 h2
+  obtain ⟨r, hr, hr1⟩ := rPartial_ok h hi h1 h2
+  obtain ⟨v, hv⟩ := vPartial_ok h hi h1 h2
+  exact ⟨r, v, hr, hr1, hv, DSymData.mOf_some hr hv⟩
 
 theorem setV_ok {s : DSymData} (h : SymInv s) {i d : Nat} (hi : i < s.dim) (h1 : 1 ≤ d) (h2 : d ≤ s.size)
     (v : Nat) : ∃ s', s.setV i d v = .ok s' ∧ SymInv s' ∧ s'.dset = s.dset := by
@@ -240,6 +285,7 @@ theorem table_le_entries (spec : DSymSpec) (hlen : spec.opSpec.length = spec.dim
 structure Admitted (spec : DSymSpec) : Prop where
   size_pos : 1 ≤ spec.size
   dim_pos : 1 ≤ spec.dim
+  dim_fits : spec.dim + 1 < usizeLimit
   op_len : spec.opSpec.length = spec.dim + 1
   m_len : spec.mSpec.length = spec.dim
   op_enough : ∀ l ∈ spec.opSpec, divCeil2 spec.size ≤ l.length
@@ -265,13 +311,13 @@ theorem fromSpec_not_admitted (spec : DSymSpec) (h : ¬ Admitted spec) : fromSpe
   have c3' : some spec.opSpec.length = checkedAdd spec.dim 1 := by simpa using c3
   unfold checkedAdd at c3'
   split at c3'
-  · refine ⟨by omega, by omega, by simpa using c3', by simpa using c4, ?_⟩
+  · refine ⟨by omega, by omega, by assumption, by simpa using c3', by simpa using c4, ?_⟩
     intro l hl
     simp only [List.any_eq_true, decide_eq_true_eq, not_exists, not_and, Nat.not_lt] at c5
     exact c5 l hl
   · cases c3'
 
-theorem fromSpec_admitted (spec : DSymSpec) (h : Admitted spec) (hu : spec.dim + 1 < usizeLimit) :
+theorem fromSpec_admitted (spec : DSymSpec) (h : Admitted spec) :
     fromSpec spec =
       match newC spec.size spec.dim with
       | .ok ds0 =>
@@ -287,24 +333,24 @@ theorem fromSpec_admitted (spec : DSymSpec) (h : Admitted spec) (hu : spec.dim +
       | .panic => .panic := by
   unfold fromSpec
   rw [if_neg (by have := h.size_pos; omega), if_neg (by have := h.dim_pos; omega), if_neg, if_neg, if_neg]
-  · simp only [List.any_eq_true, decide_eq_true_eq, not_exists, not_and, Nat.not_lt, Bool.not_eq_true]
-    intro ⟨l, hl, hlt⟩
-    have := h.op_enough l hl
-    omega
+  · rfl
+  · simp only [List.any_eq_true, decide_eq_true_eq, not_exists, not_and, Nat.not_lt]
+    intro l hl
+    exact h.op_enough l hl
   · rw [h.m_len]; simp
   · unfold checkedAdd
-    rw [if_pos hu, h.op_len]; simp
+    rw [if_pos h.dim_fits, h.op_len]; simp
 
 /-- everything `fromSpec` does after its initial checks, with the facts that make it safe -/
-theorem fromSpec_core (spec : DSymSpec) (h : Admitted spec) (hb : 2 * opEntries spec < allocLimit) :
+theorem fromSpec_core (spec : DSymSpec) (h : Admitted spec)
+    (hb : spec.size * (spec.dim + 1) < allocLimit) :
     fromSpec spec ≠ .panic ∧
     ∀ s, fromSpec spec = .ok s → SymInv s ∧ s.size = spec.size ∧ s.dim = spec.dim := by
-  have htab := table_le_entries spec h.op_len h.op_enough
-  have hal : allocLimit ≤ usizeLimit := by unfold allocLimit usizeLimit; decide
-  have hdim : spec.dim + 1 ≤ spec.size * (spec.dim + 1) := Nat.le_mul_of_pos_left _ h.size_pos
-  have hsize : spec.size ≤ spec.size * (spec.dim + 1) := Nat.le_mul_of_pos_right _ (by omega)
-  rw [fromSpec_admitted spec h (by omega)]
-  obtain ⟨ds0, hnew, hsz0, hdm0, hv0, hz0⟩ := newC_ne_panic h.size_pos h.dim_pos (by omega : spec.size * (spec.dim + 1) < allocLimit)
+  have hsize : spec.size * 2 ≤ spec.size * (spec.dim + 1) :=
+    Nat.mul_le_mul_left _ (by have := h.dim_pos; omega)
+  have hsp := h.size_pos
+  rw [fromSpec_admitted spec h]
+  obtain ⟨ds0, hnew, hsz0, hdm0, hv0, hz0⟩ := newC_ne_panic h.size_pos h.dim_pos hb
   rw [hnew]
   dsimp only
   have hsome : ∀ j, j ≤ ds0.dim → (spec.opSpec[j]?).isSome := by
@@ -346,5 +392,22 @@ theorem fromSpec_core (spec : DSymSpec) (h : Admitted spec) (hb : 2 * opEntries 
       rw [b']; show ds.size = _; omega
     · show s.dset.dim = _
       rw [b']; show ds.dim = _; omega
+
+/-- the only `panic` left in `fromSpec`: a table of 2^60 or more entries ("capacity overflow"),
+    which needs an input text with at least 2^59 integers -/
+theorem fromSpec_too_big (spec : DSymSpec) (h : Admitted spec)
+    (hb : ¬ spec.size * (spec.dim + 1) < allocLimit) : fromSpec spec = .panic := by
+  rw [fromSpec_admitted spec h]
+  have hal : allocLimit ≤ usizeLimit := by unfold allocLimit usizeLimit; decide
+  have : newC spec.size spec.dim = .panic := by
+    unfold newC
+    split
+    · rfl
+    · split
+      · rfl
+      · split
+        · rfl
+        · rw [if_pos (by omega)]
+  rw [this]
 
 end DSymVerif.Text
